@@ -278,7 +278,7 @@ func checkC13(c *Ctx, r *Report) error {
 	id := 0
 
 	// ---- conversions alone
-	nconv := TierN(c.Tier, 6000, 60000, 20000)
+	nconv := TierN(c.Tier, 12000, 60000, 24000)
 	for k := 0; k < nconv; k++ {
 		s := coordStrata[k%len(coordStrata)]
 		x := coord(rng, s)
@@ -385,8 +385,8 @@ func checkC13(c *Ctx, r *Report) error {
 	}
 	// lengths: empty, tiny, around the Triangle3Buffer batch (256) and bufio (4096 bytes = 81.9 records) sizes, large
 	fixed := []int{0, 1, 2, 3, 80, 81, 82, 255, 256, 257}
-	nsmall := TierN(c.Tier, 260, 4000, 1200)
-	big := []int{TierN(c.Tier, 1500, 5000, 2500)}
+	nsmall := TierN(c.Tier, 500, 4000, 1200)
+	big := []int{TierN(c.Tier, 3000, 5000, 3500)}
 	if c.Tier == "thorough" {
 		big = append(big, 4097, 7000)
 	}
@@ -414,7 +414,7 @@ func checkC13(c *Ctx, r *Report) error {
 		}
 	}
 	// one triangle per stratum of triangles, so that each kind is reported separately
-	for i := 0; i < TierN(c.Tier, 160, 2000, 600); i++ {
+	for i := 0; i < TierN(c.Tier, 300, 2000, 600); i++ {
 		k++
 		t, s := genTriangle(rng, k)
 		if err := listCase("single/"+s, []tri{t}); err != nil {
@@ -491,7 +491,7 @@ func checkC13(c *Ctx, r *Report) error {
 			return err
 		}
 	}
-	nasc := TierN(c.Tier, 240, 3000, 800)
+	nasc := TierN(c.Tier, 400, 3000, 800)
 	for i := 0; i < nasc; i++ {
 		n := rng.Range(0, 4)
 		if i%12 == 0 {
@@ -510,7 +510,7 @@ func checkC13(c *Ctx, r *Report) error {
 		return err
 	}
 
-	r.Rule = "conversion cases: one float64 per case from 11 strata (exact float32 values, midpoints of adjacent float32 incl. subnormal / carry / overflow-threshold ties and their float64 neighbours, subnormal and underflow range, beyond MaxFloat32, any exponent, signed zeros); distinct by bit pattern. list cases: triangle lists of length 0..large (quick 1500, thorough 7000) whose triangles come from the same coordinate strata, ordinary geometry, degenerate and axis-aligned triangles; written with SaveSTL and with ToSTL through a scripted Render3 that delivers random batches; non-trivial = at least one triangle, distinct by the bit patterns of all coordinates. ascii cases: listings of 0..40 triangles written in several number formats / indentation / line-ending styles; distinct by file content."
+	r.Rule = "conversion cases: one float64 per case from 11 strata (exact float32 values, midpoints of adjacent float32 incl. subnormal / carry / overflow-threshold ties and their float64 neighbours, subnormal and underflow range, beyond MaxFloat32, any exponent, signed zeros); distinct by bit pattern. list cases: triangle lists of length 0..large (quick 3000, thorough 7000) whose triangles come from the same coordinate strata, ordinary geometry, degenerate and axis-aligned triangles; written with SaveSTL and with ToSTL through a scripted Render3 that delivers random batches; non-trivial = at least one triangle, distinct by the bit patterns of all coordinates. ascii cases: listings of 0..40 triangles written in several number formats / indentation / line-ending styles; distinct by file content."
 	r.Trusted = append(r.Trusted,
 		"hand models coq/Io/F32.v, Io/Stl.v, Io/StlLoad.v tied to render/stl.go by differential execution inside coqc: bytes of SaveSTL and ToSTL vs Stl.save_f / Stl.stream_save_f (every byte identical, header text ignored; Normal words within 4 float32 ulp), LoadSTL vs Stl.decode, float32 conversions vs F32.narrow32/widen32 bit for bit",
 		"harness oracles: math/big rounding to float32, 300-bit exact normal, os file IO",
